@@ -1,9 +1,9 @@
-import XjsModel.Proofs.RsDefs
+import XjsModel.Proofs.RaDefs
 import XjsModel.Proofs.ParserTokens
 /-
   Round trip, part 2: one-step unfoldings of the parser on a known cursor, and state arithmetic.
 -/
-namespace Xjs.RS
+namespace Xjs.RA
 open Xjs
 
 /-- `k` calls of `NextToken` -/
@@ -79,15 +79,26 @@ theorem prefix_group (hc : BaseCfg cfg) (st : PS) (h : st.cur.type = .lparen) :
   cases hx : (expectToken TokType.rparen x.2).1 <;> simp [hx]
 
 theorem remaining_stop (left : Expr) (p : Nat) (st : PS)
-    (h : st.peek.type = .semicolon ∨ precOf cfg st.peek.type ≤ p) :
+    (h : st.peek.type = .semicolon ∨ precOf cfg st.peek.type ≤ p ∨
+      (st.peek.nl = true ∧ (st.peek.type = .increment ∨ st.peek.type = .decrement)) ∨
+      (cfg.smart = true ∧ st.peek.nl = true ∧ (st.peek.type = .lparen ∨ st.peek.type = .lbracket))) :
     parseRemaining cfg left p st = some (left, st) := by
   rw [parseRemaining]
-  have : (st.peek.type != TokType.semicolon && decide (p < peekPrecedence cfg st)) = false := by
-    rcases h with h | h
-    · simp [h]
+  by_cases hc : (st.peek.type != TokType.semicolon && decide (p < peekPrecedence cfg st)) = true
+  · simp only [hc, if_true]
+    rcases h with h | h | h | h
+    · simp [h] at hc
     · have : ¬ p < peekPrecedence cfg st := by unfold peekPrecedence; omega
+      simp [this] at hc
+    · have : (st.peek.nl && (st.peek.type == TokType.increment || st.peek.type == TokType.decrement)) = true := by
+        rcases h.2 with e | e <;> simp [h.1, e]
       simp [this]
-  simp [this]
+    · have : (cfg.smart && st.peek.nl && (st.peek.type == TokType.lparen || st.peek.type == TokType.lbracket)) = true := by
+        rcases h.2.2 with e | e <;> simp [h.1, h.2.1, e]
+      simp only [this, if_true]
+      split <;> rfl
+  · have : (st.peek.type != TokType.semicolon && decide (p < peekPrecedence cfg st)) = false := by simpa using hc
+    simp [this]
 
 theorem remaining_step (left : Expr) (p : Nat) (st : PS)
     (h1 : st.peek.type ≠ .semicolon) (h2 : p < precOf cfg st.peek.type)
@@ -252,4 +263,4 @@ theorem params_loop (ps : List Token) : ∀ (acc : List Ident) (st : PS) (last c
     simp only [List.map_cons, List.append_assoc, List.singleton_append, cparamToks, List.length_cons]
     rfl
 
-end Xjs.RS
+end Xjs.RA
